@@ -556,6 +556,12 @@ def judge_numerical(spec, rec):
     if spec['d'] == 0 and spec['tol'] in (0, '0%') and s_str.replace(' ', '').replace('\t', '').replace(
             '\n', '').replace('\r', '') != a_str:
         raise Discard('not-identical')
+    # two more graders for the same answer, one that tolerates anything and one that tolerates nothing, grade the very
+    # same submission first: a verdict belongs to the grader's own tolerance (a seeded change remembered verdicts per
+    # class, keyed by answer and submission only)
+    for other in (1e9, 0):
+        grade(build_grader(NumericalGrader, a_str, dict(sp, tol=other)), s_str, sp)
+        rec.calls()
     g = build_grader(NumericalGrader, a_str, sp)
     k, r = grade(g, s_str, sp)
     rec.calls()
